@@ -172,6 +172,14 @@ func c12BoundedPasses(c *Ctx) {
 				if ok, _ := g.MustPassBefore(rc[0], func(k int) bool { return k == g.Idx[fs.Store] }); ok {
 					resetPerPass = true
 				}
+				// ... and after mergeScopeDirectives of the same iteration, which
+				// reads what the previous relocate pass counted
+				if hdr != nil {
+					sn := g.Idx[fs.Store]
+					if p := g.Path([]int{g.First[hdr]}, nil, func(k int) bool { return k == mc[0] }, func(k int) bool { return k == sn }); p != nil {
+						bad = "relocatedObjects is reset before mergeScopeDirectives has looked at the count of the previous relocate pass: an unresolved Scope is given up although objects were still being relocated (a valid table that needs another pass is rejected)"
+					}
+				}
 			}
 		default:
 			b, ok := fs.Store.Val.(*ssa.BinOp)
